@@ -889,6 +889,10 @@ func (n *RegexNode) canBeMadeAtomic(subsequent *RegexNode, iterateNullableSubseq
 	// subsequent ends up being a loop with a min bound of 0, we'll also need to evaluate the node
 	// against whatever comes after subsequent.  In that case, we'll walk the tree to find the
 	// next subsequent, and we'll loop around against to perform the comparison again.
+	// Set once the walk below has stepped over a \B.  A \B after a loop of non-word characters holds
+	// between two of the loop's characters but not after the last one when a word character follows,
+	// so the loop may have to give characters back for it.
+	steppedOverNonboundary := false
 	for {
 		// Skip the successor down to the closest node that's guaranteed to follow it.
 		childCount := len(subsequent.Children)
@@ -1010,6 +1014,9 @@ func (n *RegexNode) canBeMadeAtomic(subsequent *RegexNode, iterateNullableSubseq
 		if !iterateNullableSubsequent {
 			return false
 		}
+		if subsequent.T == NtNonboundary || subsequent.T == NtNonECMABoundary {
+			steppedOverNonboundary = true
+		}
 
 		// To be conservative, we only walk up through a very limited set of constructs (even though we may have walked
 		// down through more, like loops), looking for the next concatenation that we're not at the end of, at
@@ -1023,7 +1030,16 @@ func (n *RegexNode) canBeMadeAtomic(subsequent *RegexNode, iterateNullableSubseq
 			}
 
 			switch parent.T {
-			case NtAtomic, NtAlternate, NtCapture:
+			case NtAtomic:
+				// Nothing backtracks into an atomic group once it has matched, so what follows the group
+				// cannot stand in for the \B: (?>-+\B|-+)a against "--a" must match "-a".
+				if steppedOverNonboundary {
+					return false
+				}
+				subsequent = parent
+				continue
+
+			case NtAlternate, NtCapture:
 				subsequent = parent
 				continue
 
